@@ -51,9 +51,14 @@ var bsData = map[string][]byte{
 	"d1": {0x42},
 	"d2": bytes.Repeat([]byte{0xab, 0xcd, 0x01, 0x7f}, 256),
 	"d3": []byte("hello, storethehash"),
+	// with the identity hash the digest IS the block: three blocks whose digests share the index
+	// bucket and eight further bytes, so that an unknown CID finds another block's index entry
+	"d4": {1, 2, 3, 4, 5, 6, 7, 8, 0xaa},
+	"d5": {1, 2, 3, 4, 5, 6, 7, 8, 0xbb, 0xcc},
+	"d6": {1, 2, 3, 4, 5, 6, 7, 8, 0xbb, 0xdd, 0xee},
 }
 
-var bsFn = map[string]uint64{"sha2-256": mh.SHA2_256, "sha2-512": mh.SHA2_512, "blake2b-256": mh.BLAKE2B_MIN + 31, "sha3-256": mh.SHA3_256}
+var bsFn = map[string]uint64{"sha2-256": mh.SHA2_256, "sha2-512": mh.SHA2_512, "blake2b-256": mh.BLAKE2B_MIN + 31, "sha3-256": mh.SHA3_256, "identity": mh.IDENTITY}
 var bsCodec = map[string]uint64{"raw": cid.Raw, "dag-pb": cid.DagProtobuf, "dag-cbor": cid.DagCBOR}
 
 func init() { engines["bstore"] = runBstore }
